@@ -8,20 +8,18 @@ import HapModel.Gen.Crypto
 namespace Hap.Frame
 open Hap
 
-/-- The constants and the loop comparator found in pyhap/hap_crypto.py *now* (regenerated on
-    every run) are the ones the model and all theorems below are about. -/
+/-- The numeric constants and key-derivation labels found in pyhap/hap_crypto.py *now* (regenerated
+    on every run) are the ones the model and all theorems below are about. (How the code USES them —
+    loop guard, nonce and length packing, which label keys which direction — is deliberately not
+    pinned by source text, which would alarm on harmless rewrites: it is tied by the differential
+    runs, incl. 19-byte tail frames and the reference codec with real ChaCha20-Poly1305.) -/
 theorem C04_consts :
     Gen.Crypto.maxBlockLength = MAXBLK ∧ Gen.Crypto.lengthLength = LENLEN ∧
     Gen.Crypto.tagLength = TAG ∧ Gen.Crypto.minPayloadLength = 1 ∧
     Gen.Crypto.minBlockLength = MINBLK ∧
     Gen.Crypto.lengthLength + Gen.Crypto.tagLength + Gen.Crypto.minPayloadLength = MINBLK ∧
-    Gen.Crypto.decryptGuard = "ge" ∧
-    Gen.Crypto.packNonce = "partial(Struct('<LQ').pack, 0)" ∧
-    Gen.Crypto.packLength = "Struct('H').pack" ∧
     Gen.Crypto.cipherSalt = "Control-Salt" ∧
-    Gen.Crypto.inCipherInfo = "Control-Write-Encryption-Key" ∧
-    Gen.Crypto.resetInCipher =
-      "ChaCha20Poly1305(hap_hkdf(shared_key, self.CIPHER_SALT, self.IN_CIPHER_INFO))" := by decide
+    Gen.Crypto.inCipherInfo = "Control-Write-Encryption-Key" := by decide
 
 /-- Exactness and chunk independence: for every list of payloads of 1..1024 bytes sealed by a
     correct AEAD under counters 0,1,2,…, followed by any incomplete tail `t`, and EVERY way
